@@ -101,7 +101,9 @@ fn entries(w: &World, roles: &Roles) -> Vec<Entry> {
     for v in 0..w.vamms.len() {
         let st = &obs.v[v].state;
         let open = st.open;
-        let engine = vec![w.engine.to_string()];
+        // the vAMM's margin-engine / insurance-fund roles are whatever its owner configured last (the prelude may re-point them)
+        let engine = vec![obs.v[v].cfg.margin_engine.to_string()];
+        let vfund = obs.v[v].cfg.insurance_fund.to_string();
         // "nothing but authorisation can fail": the vAMM's own quote for the same arguments must answer (deep 12-decimal pools
         // overflow the reserve product, which refuses the engine's swap as well)
         let in_ok = w
@@ -200,7 +202,7 @@ fn entries(w: &World, roles: &Roles) -> Vec<Entry> {
             name: "vamm.SetOpen",
             target: Target::Vamm(v),
             msg: jv(&vamm::ExecuteMsg::SetOpen { open: !open }),
-            allowed: vec![roles.vamm_owner[v].clone(), w.fund.to_string()],
+            allowed: vec![roles.vamm_owner[v].clone(), vfund.clone()],
             must_succeed_for_holder: true,
             at_time: None,
         });
@@ -210,7 +212,7 @@ fn entries(w: &World, roles: &Roles) -> Vec<Entry> {
             name: "vamm.SetOpen#same",
             target: Target::Vamm(v),
             msg: jv(&vamm::ExecuteMsg::SetOpen { open }),
-            allowed: vec![roles.vamm_owner[v].clone(), w.fund.to_string()],
+            allowed: vec![roles.vamm_owner[v].clone(), vfund.clone()],
             must_succeed_for_holder: false,
             at_time: Some(obs.time + 1800),
         });
@@ -436,9 +438,21 @@ fn entries(w: &World, roles: &Roles) -> Vec<Entry> {
         target: Target::Fund,
         msg: jv(&fund::ExecuteMsg::ShutdownVamms {}),
         allowed: vec![roles.fund_owner.clone()],
-        must_succeed_for_holder: reg.iter().any(|v| obs.v[*v].state.open),
+        // something must be left that the fund can shut down: an open registered vAMM that still answers to this fund
+        must_succeed_for_holder: reg.iter().any(|v| obs.v[*v].state.open && (obs.v[*v].cfg.insurance_fund == w.fund || roles.vamm_owner[*v] == w.fund.as_str())),
         at_time: None,
     });
+    // a registered vAMM whose owner re-pointed it elsewhere: its registry entry is still the fund owner's to remove, nobody else's
+    if let Some(v) = reg.iter().find(|v| obs.v[**v].cfg.insurance_fund != w.fund) {
+        es.push(Entry {
+            name: "fund.RemoveVamm#repointed",
+            target: Target::Fund,
+            msg: jv(&fund::ExecuteMsg::RemoveVamm { vamm: w.vamms[*v].to_string() }),
+            allowed: vec![roles.fund_owner.clone()],
+            must_succeed_for_holder: true,
+            at_time: None,
+        });
+    }
     es.push(Entry {
         name: "fund.UpdateOwner",
         target: Target::Fund,
@@ -519,6 +533,9 @@ fn senders(w: &World, roles: &Roles) -> Vec<String> {
         "stranger".into(),
         "newadmin".into(),
         "secondadmin".into(),
+        w.fund2.to_string(),
+        crate::world::RETIRED_FUND.to_string(),
+        crate::world::ENGINE_TYPO.to_string(),
     ];
     for r in roles.vamm_owner.iter().chain(roles.feed_owner.iter()).chain([&roles.engine_owner, &roles.pauser, &roles.fund_owner, &roles.pool_owner, &roles.orphan_owner]).chain(roles.orphan_engine.iter()).chain(roles.orphan_fund.iter()) {
         if !s.contains(r) {
@@ -613,6 +630,9 @@ impl Property for C09 {
         w.setopen = 4;
         w.register = 4;
         w.whitelist = 4;
+        // a vAMM owner re-points its market's insurance-fund / margin-engine setting (authorisation on the other contracts must
+        // not depend on what a vAMM says about itself)
+        w.rewire = 3;
         w.squeeze = 0;
         w.liq_weakest = 1;
         w.liquidate = 1;
